@@ -214,6 +214,49 @@ def eng6(ctx: Ctx) -> None:
             ctx.R.ok("ENG-6", f"the block under `{norm(b.test)[:50]}` only fills in contexts and records errors")
 
 
+
+def trio3(ctx: Ctx) -> None:
+    """TRIO-3 the Trio glue finds out the nursery manager's type by opening a nursery: directly when it is installed from inside a
+    run, through its own trio.run() otherwise -- and trio.run() inside a run raises.  So the probe that chooses between the two
+    must ask "is a run active on this thread?" (the run context's `runner`), not "is there a current task?": during a run there
+    are moments without a task (instruments, signal handlers, the I/O wait).  Decided by reading what the probed Trio function
+    looks at in the installed distribution's source"""
+    mod = ctx.P.mod("_glue")
+    if not mod.has("glue_trio"):
+        raise AnalysisError("TRIO-3: _glue.glue_trio not found")
+    fn = mod.fn("glue_trio")
+    tries = [t for t in walk_scope(fn) if isinstance(t, ast.Try) and any(isinstance(c, ast.Call) and norm(c.func) == "trio.run" for h in t.handlers for c in ast.walk(h))]
+    if len(tries) != 1:
+        ctx.R.undecided("TRIO-3", f"{len(tries)} try statements fall back to trio.run() in glue_trio (1 expected)")
+        return
+    t = tries[0]
+    aliases = {"lowlevel": "trio.lowlevel", "hazmat": "trio.lowlevel"}
+    probes = [c for st in t.body for c in ast.walk(st) if isinstance(c, ast.Call)]
+    if not probes:
+        ctx.R.undecided("TRIO-3", "the try that falls back to trio.run() probes nothing")
+        return
+    for c in probes:
+        dotted = norm(c.func).split(".")
+        if dotted[0] in aliases:
+            dotted = aliases[dotted[0]].split(".") + dotted[1:]
+        if dotted[0] != "trio" or not all(p_.isidentifier() for p_ in dotted):
+            ctx.R.undecided("TRIO-3", f"probe `{norm(c)[:40]}` is not a Trio function")
+            continue
+        tdef, where = _third_party_def(list(dotted))
+        if tdef is None:
+            ctx.R.ok("TRIO-3", f"probe {'.'.join(dotted)} not compared", where)
+            continue
+        reads = {x.attr for x in ast.walk(tdef) if isinstance(x, ast.Attribute) and "GLOBAL_RUN_CONTEXT" in norm(x.value)}
+        if "runner" in reads:
+            ctx.R.ok("TRIO-3", f"probe {'.'.join(dotted)} reads the run context's runner", where.split("site-packages/")[-1])
+        elif "task" in reads:
+            ctx.R.fail("TRIO-3", mod, c, f"whether to open the probe nursery directly or through trio.run() is decided by {'.'.join(dotted)}(), which asks for the current *task* ({where.split('site-packages/')[-1]}): "
+                       "inside a run but outside any task (an Instrument hook, a signal handler, the I/O wait) it raises, the glue calls trio.run() from inside a run, that raises, the Trio glue is "
+                       "abandoned with a warning and nursery contexts keep their manager object with no child tasks", construct=f"glue_trio: run probe {'.'.join(dotted)}")
+        else:
+            ctx.R.undecided("TRIO-3", f"probe {'.'.join(dotted)} reads {sorted(reads) or 'nothing'} of the run context")
+
+
 # ----------------------------------------------------------------------------------------------------------------- LOC-1
 def _third_party_def(dotted: List[str]) -> Tuple[Optional[ast.AST], str]:
     """the FunctionDef that `pkg.a.b.func` names, found by *reading* the installed distribution (PathFinder locates the
@@ -286,6 +329,19 @@ def _third_party_def(dotted: List[str]) -> Tuple[Optional[ast.AST], str]:
                         break
                 if moved:
                     break
+        if moved:
+            continue
+        # `from .x import *`: look for a definition of the name in each star-imported module
+        stars = [n for n in ast.walk(tree) if isinstance(n, ast.ImportFrom) and n.level and n.module and any(a.name == "*" for a in n.names)]
+        for n in stars:
+            tgt = submodule(os.path.join(os.path.dirname(cur), "x.py"), n.module, n.level - 1)
+            if tgt is None:
+                continue
+            t2 = parse(tgt)
+            if t2 is not None and any(isinstance(d_, (ast.FunctionDef, ast.AsyncFunctionDef, ast.ClassDef)) and d_.name == nm for d_ in t2.body):
+                cur = tgt
+                moved = True
+                break
         if moved:
             continue
         sm = submodule(cur, nm) if os.path.basename(cur) == "__init__.py" else None
@@ -363,5 +419,5 @@ def loc1(ctx: Ctx) -> None:
         ctx.R.ok("LOC-1", "no third-party distribution available to compare local names with", "not compared")
 
 
-C14 = [trio1, trio2, loc1]
+C14 = [trio1, trio2, trio3, loc1]
 C15 = [grn1, grn2, loc1]
